@@ -256,17 +256,25 @@ Proof.
     injection H as <- _ <-. eapply run_app; [eassumption|]. cbn [run]. rewrite St. eapply IH; eassumption.
 Qed.
 
-Lemma exec_race_run hc sizes s m ls evs s' :
-  exec_race hc sizes s m = Some (ls, evs, s') -> run (h_cfg hc) s ls = Some s'.
+Lemma exec_race_run hc sizes s m e ls evs s' :
+  exec_race hc sizes s m e = Some (ls, evs, s') -> run (h_cfg hc) s ls = Some s'.
 Proof.
   unfold exec_race. intros H.
   destruct (step (h_cfg hc) s LShutCall) as [s1|] eqn:S1; [|discriminate].
   destruct (step (h_cfg hc) s1 LCloseStop) as [s2|] eqn:S2; [|discriminate].
-  destruct (race_takes (m - unbegun_taken s) hc sizes s2) as [[[ls3 evs3] s3]|] eqn:E3; [|discriminate].
-  destruct (step (h_cfg hc) s3 LQueueStop) as [s4|] eqn:S4; [|discriminate].
+  assert (RT : forall r, (if Nat.eqb (m - unbegun_taken s) 0 && negb e then Some ([], [], s2)
+                          else race_takes (m - unbegun_taken s) hc sizes s2) = Some r ->
+                         run (h_cfg hc) s2 (fst (fst r)) = Some (snd r)).
+  { intros [[l0 e0] s0]. destruct (Nat.eqb (m - unbegun_taken s) 0 && negb e); intros X.
+    - injection X as <- _ <-. reflexivity.
+    - eapply race_takes_run; eassumption. }
+  destruct (if Nat.eqb (m - unbegun_taken s) 0 && negb e then Some ([], [], s2)
+            else race_takes (m - unbegun_taken s) hc sizes s2) as [[[ls3 evs3] s3]|] eqn:E3; [|discriminate].
+  specialize (RT _ eq_refl). cbn [fst snd] in RT.
+  destruct (step (h_cfg hc) s3 (LQueueStop (qstop_err hc s3))) as [s4|] eqn:S4; [|discriminate].
   destruct (settle settle_fuel hc sizes s4) as [[ls5 evs5] s5] eqn:E5. injection H as <- _ <-.
   cbn [run]. rewrite S1. cbn [run]. rewrite S2.
-  eapply run_app; [eapply race_takes_run; eassumption|]. cbn [run]. rewrite S4. eapply settle_run; eassumption.
+  eapply run_app; [exact RT|]. cbn [run]. rewrite S4. eapply settle_run; eassumption.
 Qed.
 
 Lemma exec_action_run hc sizes s a ls evs s1 sizes1 :
@@ -274,7 +282,7 @@ Lemma exec_action_run hc sizes s a ls evs s1 sizes1 :
 Proof.
   unfold exec_action. intros E.
   destruct a.
-  5: { destruct (exec_race hc sizes s m) as [[[ls0 evs0] s0]|] eqn:Er; [|discriminate].
+  5: { destruct (exec_race hc sizes s m e) as [[[ls0 evs0] s0]|] eqn:Er; [|discriminate].
        injection E as <- _ <- _. eapply exec_race_run; eassumption. }
   all: match type of E with context[action_label ?h ?st ?a] => destruct (action_label h st a) as [l|] end; [|discriminate];
        match type of E with context[step ?c ?st ?x] => destruct (step c st x) as [s0|] eqn:St end; [|discriminate];
